@@ -114,12 +114,13 @@ Print Assumptions c06_loop_nest_bounded_refuted.
     sites do): in every state a render reaches, the product of the lengths of
     all loops that are running — for, tablerow, include-for, render-for, in this
     template or in any template, macro or block that (transitively) rendered
-    it — is at most the limit.  [nest_product] is read off the operation
-    sequence alone. *)
+    it — is at most the limit (or no loop is running: a limit of 0 admits only
+    loops of length 0).  [enclosing_loops] / [nest_product] are read off the
+    operation sequence alone. *)
 Theorem c06_loop_nest_bounded_partial : forall c L ops s,
   active (loop_limit c) = Some L -> Forall counted ops ->
   render c init ops = Ok s ->
-  nest_product ops <= L.
+  enclosing_loops ops = [] \/ nest_product ops <= L.
 Proof. exact loop_nest_bounded_partial. Qed.
 Print Assumptions c06_loop_nest_bounded_partial.
 
